@@ -253,8 +253,18 @@ class ModelInterp(Interp):
             if isinstance(v, (int, float)) and not isinstance(v, bool):
                 return -v
             raise DTop("negation")
+        if isinstance(e, (ast.Tuple, ast.List)) and any(isinstance(x, ast.Starred) for x in e.elts):
+            out = []
+            for x in e.elts:
+                if isinstance(x, ast.Starred):
+                    out += list(self.ev(x.value))
+                else:
+                    out.append(self.ev(x))
+            return tuple(out) if isinstance(e, ast.Tuple) else out
         if isinstance(e, (ast.GeneratorExp, ast.ListComp)):
             return self._comp(e)
+        if isinstance(e, ast.SetComp):
+            return frozenset(self._comp(e))
         if isinstance(e, ast.DictComp):
             out = {}
             for env in self._iter_gens(e.generators, dict(self.names)):
@@ -363,15 +373,27 @@ class ModelInterp(Interp):
                 return (tuple if f.id == "tuple" else list)(args[0]) if args else (() if f.id == "tuple" else [])
             if f.id == "frozenset" or f.id == "set":
                 return frozenset(args[0]) if args else frozenset()
+            if f.id == "dict" and len(args) <= 1:
+                return dict(args[0]) if args else {}
+            if f.id == "sorted" and len(args) == 1 and not c.keywords:
+                try:
+                    return sorted(args[0])
+                except TypeError:
+                    raise Raises("TypeError", u(c)[:60])
             if f.id == "any":
                 return any(self.truth(x) for x in args[0])
             if f.id == "all":
                 return all(self.truth(x) for x in args[0])
             raise DTop(f"call {f.id}")
         if isinstance(f, ast.Attribute):
+            m = f.attr
+            if m == "fromkeys" and u(f.value) in ("dict", "collections.OrderedDict", "OrderedDict"):
+                args = [self.ev(a) for a in c.args]
+                return {k: (args[1] if len(args) > 1 else None) for k in args[0]}
             recv = self.ev(f.value)
             args = [self.ev(a) for a in c.args]
-            m = f.attr
+            if m == "fromkeys" and u(f.value) in ("dict", "collections.OrderedDict", "OrderedDict"):
+                return {k: (args[1] if len(args) > 1 else None) for k in args[0]}
             if m == "get":
                 if not isinstance(recv, dict):
                     raise Raises("AttributeError", u(c)[:60])
@@ -511,3 +533,116 @@ def eval_ctor(it: "SymInterp", e: ast.expr):
         return it.ev(e), [], {}
     callee = it.ev(e.func)
     return callee, [it.ev(a) for a in e.args], {k.arg: it.ev(k.value) for k in e.keywords if k.arg}
+
+
+# --------------------------------------------------------------------------- index selectors on a model axis
+class IndexInterp(ModelInterp):
+    """ModelInterp + the numpy index constructors, evaluated to plain Python values:
+    np.ix_(a, b, ..) -> ('ix', (tuple(a), tuple(b), ..)) ; np.s_[lo:hi:st] / slice(lo, hi, st) -> slice ; `...` -> Ellipsis ;
+    int arithmetic.  `selected(sel, extents)` turns such a value into the tuple of selected positions per axis (in order)."""
+
+    def ev(self, e: ast.expr) -> Any:
+        try:
+            return self.atoms(e)
+        except KeyError:
+            pass
+        if isinstance(e, ast.Constant) and e.value is Ellipsis:
+            return Ellipsis
+        if isinstance(e, ast.Name) and e.id == "Ellipsis":
+            return Ellipsis
+        if isinstance(e, ast.Subscript) and u(e.value) in ("np.s_", "np.index_exp"):
+            sl = e.slice
+            parts = list(sl.elts) if isinstance(sl, ast.Tuple) else [sl]
+            vals = [self._slice_value(p) for p in parts]
+            return tuple(vals) if isinstance(sl, ast.Tuple) or u(e.value) == "np.index_exp" else vals[0]
+        if isinstance(e, ast.BinOp) and isinstance(e.op, (ast.Sub, ast.Mult, ast.FloorDiv, ast.Mod)):
+            a, b = self.ev(e.left), self.ev(e.right)
+            if all(isinstance(x, int) and not isinstance(x, bool) for x in (a, b)):
+                if isinstance(e.op, ast.Sub):
+                    return a - b
+                if isinstance(e.op, ast.Mult):
+                    return a * b
+                if b == 0:
+                    raise Raises("ZeroDivisionError", u(e)[:60])
+                return a // b if isinstance(e.op, ast.FloorDiv) else a % b
+            raise DTop("arithmetic on non-int")
+        return super().ev(e)
+
+    def _slice_value(self, p):
+        if isinstance(p, ast.Slice):
+            return slice(*(self.ev(x) if x is not None else None for x in (p.lower, p.upper, p.step)))
+        return self.ev(p)
+
+    def _call(self, c: ast.Call, it):
+        f = u(c.func)
+        if f == "np.ix_":
+            args = []
+            for a in c.args:
+                if isinstance(a, ast.Starred):
+                    args += list(self.ev(a.value))
+                else:
+                    args.append(self.ev(a))
+            # component i of the open mesh: the offsets of argument i, broadcast along axis i
+            return tuple(("ixc", i, tuple(a)) for i, a in enumerate(args))
+        if f == "slice":
+            vals = [self.ev(a) for a in c.args]
+            return slice(*vals)
+        if f in ("np.array", "np.asarray", "list") and len(c.args) >= 1:
+            return tuple(self.ev(c.args[0]))
+        if f in ("np.arange", "range"):
+            return tuple(range(*[self.ev(a) for a in c.args]))
+        return super()._call(c, it)
+
+
+def selected(sel: Any, extents: Tuple[int, ...]) -> Tuple[Tuple[int, ...], ...]:
+    """Positions selected per axis by `sel` on an array of shape `extents` (axes not mentioned are kept whole)."""
+    return selection_with_axes(sel, extents)[0]
+
+
+def _is_ixc(p) -> bool:
+    return isinstance(p, tuple) and len(p) == 3 and p[0] == "ixc"
+
+
+def selection_with_axes(sel: Any, extents: Tuple[int, ...]):
+    """-> (positions selected on each RAW axis, output axis each raw axis lands on).  Open-mesh components keep the axis
+    they were built for, so a permuted tuple of them transposes the result."""
+    full = [tuple(range(n)) for n in extents]
+    if sel is Ellipsis:
+        return tuple(full), tuple(range(len(extents)))
+    if _is_ixc(sel):
+        sel = (sel,)
+    parts = list(sel) if isinstance(sel, tuple) else [sel]
+    if parts and all(_is_ixc(p) for p in parts):
+        if len(parts) > len(extents):
+            raise Raises("IndexError", "too many indices")
+        pos = [tuple(p[2]) for p in parts] + full[len(parts):]
+        for k, ps in enumerate(pos):
+            if any(x >= extents[k] or x < -extents[k] for x in ps):
+                raise Raises("IndexError", f"offset out of range on axis {k}")
+        axes = [p[1] for p in parts] + list(range(len(parts), len(extents)))
+        return tuple(pos), tuple(axes)
+    if any(_is_ixc(p) for p in parts):
+        raise DTop("mixed open-mesh / basic index")
+    out = []
+    k = 0
+    for p in parts:
+        if p is Ellipsis:
+            rest = len(parts) - parts.index(p) - 1
+            while len(out) < len(extents) - rest:
+                out.append(full[len(out)])
+            k = len(out)
+            continue
+        if k >= len(extents):
+            raise Raises("IndexError", "too many indices")
+        if isinstance(p, slice):
+            out.append(full[k][p])
+        elif isinstance(p, int) and not isinstance(p, bool):
+            out.append((full[k][p],))
+        elif isinstance(p, (tuple, list)) and all(isinstance(x, int) for x in p):
+            out.append(tuple(full[k][x] for x in p))
+        else:
+            raise DTop(f"index part {p!r}")
+        k = len(out)
+    while len(out) < len(extents):
+        out.append(full[len(out)])
+    return tuple(out), tuple(range(len(extents)))
